@@ -283,6 +283,44 @@ pub fn prelude(kind: i64, seed: u64, m: &Model, ctx: &mut Ctx) {
                 ctx.fault("prelude_failed_write", wo.res.is_err() as u64);
             }
         }
+        4 => {
+            // a failing incremental parse (the stream ends inside an event) on this thread
+            let cut = if m.bytes.len() > 40 { 30 + rng.usize_below(m.bytes.len() - 30) } else { m.bytes.len() / 2 };
+            let data = &m.bytes[..cut];
+            let mut st = crate::simio::SimStream::new(data, &StreamSpec::default(), &[]);
+            let r = crate::report::guarded(|| -> Result<(), peppi::io::Error> {
+                peppi::io::slippi::de::parse_header(&mut st, None)?;
+                let mut state = peppi::io::slippi::de::parse_start(&mut st, None)?;
+                loop {
+                    peppi::io::slippi::de::parse_event(&mut st, &mut state, None)?;
+                }
+            });
+            ctx.fault("prelude_failed_incremental_parse", matches!(r, Ok(Err(_))) as u64);
+        }
+        5 => {
+            // a complete, successful read / write / archive round of a DIFFERENT game (other version, other
+            // ports) right before: nothing memoised from it may colour what follows
+            let cfg = crate::gen::GenCfg { size: Some(crate::gen::SizeClass::Tiny), ..Default::default() };
+            let other = crate::gen::gen_recorder(&mut rng, &cfg);
+            let om = crate::recorder::build(&other);
+            if let Res::Ok(g) = read_slp(&om.bytes, &StreamSpec::default(), &[], OptsSpec { skip_frames: false, compute_hash: true }).res {
+                let _ = write_slp(&g, &SinkSpec::default());
+                let w = write_slpp(g, &SinkSpec::default(), Compression::None);
+                if w.res.is_ok() {
+                    let _ = read_slpp(&w.data, &StreamSpec::default(), false);
+                }
+                ctx.probe("prelude: a different game was processed successfully before the scenario");
+            }
+        }
         _ => {}
+    }
+}
+
+/// Draw a history prelude for a scenario (0 = none).
+pub fn gen_prelude(rng: &mut crate::prng::Rng, kinds: &[i64], one_in: u64) -> i64 {
+    if rng.chance(1, one_in) {
+        *rng.pick(kinds)
+    } else {
+        0
     }
 }
